@@ -21,7 +21,7 @@ func init() {
 			"(2) SymmetricEncryptRaw/SymmetricDecryptRaw hand the caller's key, data and opts.AdditionalData to the same AEAD constructor per key type; a random nonce or random-nonce AEAD is never used on the convergent arm and the convergent nonce is an HMAC of the plaintext under opts.HMACKey; Encrypt/DecryptWithFactory bind the factory's associated data and GetKey's key into the raw call, use the same cipher family and key-size switch per key type, and the ciphertext/signature prefix written by getVersionPrefix is built from the template getTemplateParts splits; the transit handlers bind a supplied associated_data into the call; " +
 			"(3) Rotate/Upgrade/Persist arm a deferred rollback before mutating, restore the version fields and key map from snapshots taken before the mutation when the named error is non-nil, RotateInMemory cannot fail after its first mutation, Persist writes the policy only after handleArchiving succeeded, handleArchiving refuses an unordered window before writing and trims the live key map only after the archive was stored, and every copy between the archive slice and the live key map pairs slot v - MinAvailableVersion with Keys[Itoa(v)] for one and the same version value v; a handler that commits a storage transaction after mutating a cached policy restores or invalidates it when the commit fails; " +
 			"(4) keys/<name>/config and trim change min_decryption_version / min_encryption_version / min_available_version only across their range checks, persist only across the ordering check, and the config rollback restores both fields from snapshots on an error or error response; the version fields are written only by tabled functions with tabled value shapes; " +
-			"(gaps) Policy.Backup puts the archive it read after Persist into the backup and succeeds only if that read did; DeriveKey feeds the caller's context and the fetched entry's Key into the KDF and GetKey passes its context through; safeGetKeyEntry and convergentVersion read the live key map at Itoa(the requested version) only; rewrap re-encrypts only across a successful Decrypt and only the plaintext Decrypt returned; every per-item argument of the batch encrypt/decrypt/rewrap calls reads the loop's own batch item and the result goes to the response slot of the same index; a generated HMAC is labelled with the version whose key was used, HMAC generation and verification key a fresh MAC state per message with HMACKey's key over the item's decoded input, and verification hands the unsliced Sum and the unsliced decoded MAC to hmac.Equal and stores its result; handleArchiving records ArchiveMinVersion = MinAvailableVersion before storing a trimmed archive, cuts MinAvailableVersion - ArchiveMinVersion slots and is the only writer of ArchiveMinVersion, and Persist's rollback restores every Policy field handleArchiving stores from a snapshot taken before it ran, and the loop copying the live keys of versions ArchiveVersion+1 .. LatestVersion into their archive slots is run on every path to storeArchive (not only when the archive grows) and copies in every iteration; the datakey endpoint hands an AssocDataFactory built from the request's associated_data to EncryptWithFactory; AssocDataFactory.GetAssociatedData decodes its own Encoded field and does not return success unless the decoder did.",
+			"(gaps) Policy.Backup puts the archive it read after Persist into the backup and succeeds only if that read did; DeriveKey feeds the caller's context and the fetched entry's Key into the KDF and GetKey passes its context through; safeGetKeyEntry and convergentVersion read the live key map at Itoa(the requested version) only; rewrap re-encrypts only across a successful Decrypt and only the plaintext Decrypt returned; every per-item argument of the batch encrypt/decrypt/rewrap calls reads the loop's own batch item and the result goes to the response slot of the same index, and no value handed to a per-item call of the batch encrypt/decrypt/rewrap/sign/verify/HMAC loops is built on its own value of the previous iteration (no accumulator hoisted out of the batch loop); a generated HMAC is labelled with the version whose key was used, HMAC generation and verification key a fresh MAC state per message with HMACKey's key over the item's decoded input, and verification hands the unsliced Sum and the unsliced decoded MAC to hmac.Equal and stores its result; handleArchiving records ArchiveMinVersion = MinAvailableVersion before storing a trimmed archive, cuts MinAvailableVersion - ArchiveMinVersion slots and is the only writer of ArchiveMinVersion, and Persist's rollback restores every Policy field handleArchiving stores from a snapshot taken before it ran, and the loop copying the live keys of versions ArchiveVersion+1 .. LatestVersion into their archive slots is run on every path to storeArchive (not only when the archive grows) and copies in every iteration; the datakey endpoint hands an AssocDataFactory built from the request's associated_data to EncryptWithFactory; AssocDataFactory.GetAssociatedData decodes its own Encoded field and does not return success unless the decoder did.",
 		NotDecided: "round-trip equality and tamper detection themselves (AEAD, OAEP, signature and HMAC arithmetic); determinism of the convergent nonce as a value; that derived keys differ per context (KDF); behaviour of external (KMS) keys; interleavings of concurrent requests (lock discipline); crash points between the archive write and the policy write.",
 		Run:        runC17,
 	})
